@@ -7,17 +7,43 @@ package migrator
 // C37. Migration is complete and faithful, function by function:
 //   MigrateStorage                 every bucket the source lists has been migrated when nil is returned
 //   createMissingBuckets           every missing bucket has been created when nil is returned
+//   determineMissingBuckets        every source bucket the destination does not list is reported missing
 //   migrateObjectsOfBucket...      a non-empty destination bucket is refused before anything is written; otherwise
 //                                  every object the source lists has been migrated when nil is returned
 //   migrateSingleObject            what is handed to the uploader carries bucket, key, content type, every metadata
 //                                  field, the tag set and the storage class of the source object
 //   adapter PutObject / CreateMultipartUpload   what reaches the destination storage carries those fields
+//
+// histX(...) are history predicates (zz_spec_verif.go): "such a call has returned successfully in this execution".
+// range__ is the slice a range loop iterates over, iter__ the number of completed iterations.
 
 //@ func MigrateStorage
 //@ property C37
 //@ history[C37:h-bucket-migrated] every migrateObjectsOfBucketFromSourceStorageToDestinationStorage(_, $s, $d, $b) -> ($e)
 //@     where ($e == nil && $s == source && $d == destination) ==> histBucketMigrated($b)
-//@ loop 0 invariant 0 <= iter__ && iter__ <= len(allSourceBuckets) &&
-//@     forall k :: 0 <= k && k < iter__ ==> histBucketMigrated(allSourceBuckets[k].Name)
+//@ loop 0 invariant 0 <= iter__ && iter__ <= len(range__) &&
+//@     forall k :: 0 <= k && k < iter__ ==> histBucketMigrated(range__[k].Name)
 //@ ensures[C37:every-source-bucket-migrated] err == nil ==>
 //@     forall k :: 0 <= k && k < len(last_result_of(source.ListBuckets, 0)) ==> histBucketMigrated(last_result_of(source.ListBuckets, 0)[k].Name)
+//@ ensures[C37:missing-buckets-created-first] err == nil ==> called(createMissingBuckets)
+
+//@ func createMissingBuckets
+//@ property C37
+//@ history[C37:h-bucket-created] every destination.CreateBucket(_, $b) -> ($e) where $e == nil ==> histBucketCreated($b)
+//@ loop 0 invariant 0 <= iter__ && iter__ <= len(range__) &&
+//@     forall k :: 0 <= k && k < iter__ ==> histBucketCreated(range__[k].Name)
+//@ ensures[C37:every-missing-bucket-created] err == nil ==>
+//@     forall k :: 0 <= k && k < len(missingBuckets) ==> histBucketCreated(missingBuckets[k].Name)
+
+//@ func migrateObjectsOfBucketFromSourceStorageToDestinationStorage
+//@ property C37
+//@ history[C37:h-object-migrated] every migrateSingleObject(_, $s, $d, $b, $o) -> ($e)
+//@     where ($e == nil && $s == source && $d == destination && $b == bucketName) ==> histObjectMigrated(bucketName, $o.Key)
+//@ loop 0 invariant 0 <= iter__ && iter__ <= len(range__)
+//@ loop 1 invariant 0 <= iter__ && iter__ <= len(range__) &&
+//@     forall k :: 0 <= k && k < iter__ ==> histObjectMigrated(bucketName, range__[k].Key)
+//@ ensures[C37:every-listed-object-migrated] err == nil ==>
+//@     forall k :: 0 <= k && k < len(last_result_of(storage.ListAllObjectsOfBucket, 0)) ==> histObjectMigrated(bucketName, last_result_of(storage.ListAllObjectsOfBucket, 0)[k].Key)
+//@ ensures[C37:non-empty-destination-refused] len(result_of(storage.ListAllObjectsOfBucket, 0)) != 0 && result_of(storage.ListAllObjectsOfBucket, 1) == nil ==> err == ErrDestinationNotEmpty
+//@ effect[C37:nothing-written-into-non-empty-destination] every migrateSingleObject(__)
+//@     needs before storage.ListAllObjectsOfBucket(_, $d, $b) -> ($objs, $e) where $d == destination && $b == bucketName && $e == nil && len($objs) == 0
